@@ -21,6 +21,7 @@ import (
 type cockpitCase struct {
 	Tasks  int      `json:"tasks"`
 	Shapes []string `json:"shapes"` // per task: full (header, write, footer), nostart (footer only: skipped task), errored
+	After  []string `json:"after,omitempty"` // tasks of a later command-line target: run one after another once output.Close() has been called for the first target
 }
 
 func cockpitBody(c *cockpitCase) func() {
@@ -56,6 +57,27 @@ func cockpitBody(c *cockpitCase) func() {
 		wg.Wait()
 		output.Close()
 		vrt.Emit("closed", "")
+		// `taskctl T1 T2`: the output is closed after every successful target and used again by the next one
+		for i, shape := range c.After {
+			t := task.NewTask()
+			t.Name = fmt.Sprintf("later%d", i)
+			o, err := output.NewTaskOutput(t, output.FormatCockpit, io.Discard, io.Discard)
+			if err != nil {
+				panic(err)
+			}
+			if shape != "nostart" {
+				o.Start()
+				o.Stdout().Write([]byte("line\n"))
+				t.Errored = shape == "errored"
+				vrt.Park("running:" + t.Name)
+			}
+			o.Finish()
+			vrt.Emit("task.done", t.Name)
+			output.Close()
+		}
+		vrt.Emit("end", "")
+		// the process exits here: a spinner that is still spinning is abandoned, not waited for
+		vrt.ExitProcess()
 	}
 }
 
@@ -86,6 +108,13 @@ func cockpitUnits(res *common.Result) bool {
 			cases = append(cases, cockpitCase{Tasks: 2, Shapes: []string{a, b}})
 		}
 	}
+	// a second (and third) target after the first one has closed the output
+	for _, a := range []string{"full", "nostart", "errored"} {
+		for _, l := range []string{"full", "errored", "nostart"} {
+			cases = append(cases, cockpitCase{Tasks: 1, Shapes: []string{a}, After: []string{l}})
+		}
+	}
+	cases = append(cases, cockpitCase{Tasks: 1, Shapes: []string{"full"}, After: []string{"full", "full"}})
 	if *common.Unit == "cockpit-t" {
 		cases = append(cases, cockpitCase{Tasks: 3, Shapes: []string{"full", "full", "nostart"}})
 	}
@@ -99,6 +128,12 @@ func cockpitUnits(res *common.Result) bool {
 		b := bound
 		if c.Tasks >= 2 {
 			b = bound - 2
+		}
+		if len(c.After) == 1 {
+			b = bound - 1
+		}
+		if len(c.After) > 1 {
+			b = 0
 		}
 		if c.Tasks >= 3 {
 			b = 0
@@ -138,7 +173,7 @@ func cockpitUnits(res *common.Result) bool {
 			return true
 		}
 		if key != "" {
-			if res.AddViolation(common.Violation{Property: "C19", Key: fmt.Sprintf("%s|tasks=%d|shapes=%v", key, c.Tasks, c.Shapes), Desc: fmt.Sprintf("%+v: %s", c, desc), Config: c, Choices: vx.Choices, Events: eventsOf(vx)},
+			if res.AddViolation(common.Violation{Property: "C19", Key: fmt.Sprintf("%s|tasks=%d|shapes=%v|after=%v", key, c.Tasks, c.Shapes, c.After), Desc: fmt.Sprintf("%+v: %s", c, desc), Config: c, Choices: vx.Choices, Events: eventsOf(vx)},
 				map[string]interface{}{"harness": "rr", "property": "C19", "cockpit": c, "choices": vx.Choices}) {
 				return true
 			}
